@@ -83,16 +83,26 @@ def check_object_history(c):
     """ONE Salsa20/ChaCha object used for several messages, nonces, abandoned keystream generators and (Salsa20)
     core-hash calls: every answer is the specified one, whatever the object did before"""
     kind = c["cipher"]
-    obj = make(c)
+    K = Bits(c["key"], bitorder=1)            # ONE key vector, shared by this object and by a second one built at the end
+    kval = (K.ival, K.size)
+    obj = guard(Salsa20 if kind == "salsa20" else Chacha, K, c["rounds"])
     tag = kind + ":object-history"
-    for i, op in enumerate(c["ops"]):
-        if op[0] in ("enc", "dec"):
+    for i, op in enumerate(c["ops"] + (("enc2", c["nonce"], bytes(range(100))),)):
+        if op[0] in ("enc", "dec", "enc2"):
             nonce, M = op[1], op[2]
             ks = R.keystream(kind, c["key"], nonce, c["rounds"], len(M))
             exp = bytes(a ^ b for a, b in zip(M, ks))
-            got = guard(getattr(obj, op[0]), Bits(nonce, bitorder=1), M)
+            v = Bits(nonce, bitorder=1)
+            vval = (v.ival, v.size)
+            if op[0] == "enc2":
+                got = guard(guard(Salsa20 if kind == "salsa20" else Chacha, K, c["rounds"]).enc, v, M)
+            else:
+                got = guard(getattr(obj, op[0]), v, M)
             if got != exp:
-                raise Violation("%s:%s!=M^keystream" % (tag, op[0]), {"call": i, "out": exp}, {"call": i, "out": got})
+                raise Violation("%s:%s!=M^keystream" % (tag, op[0].replace("enc2", "second-object-on-the-same-key-vector:enc")),
+                                {"call": i, "out": exp}, {"call": i, "out": got})
+            expect((v.ival, v.size) == vval, tag + ":nonce-vector-changed", vval, (v.ival, v.size))
+            expect((K.ival, K.size) == kval, tag + ":key-vector-changed", kval, (K.ival, K.size))
         elif op[0] == "ks":
             g = guard(obj.keystream, Bits(op[1], bitorder=1))
             for j in range(op[2]):
@@ -102,7 +112,8 @@ def check_object_history(c):
                     raise Violation(tag + ":keystream-block!=spec", {"call": i, "block": j, "ks": exp}, {"call": i, "block": j, "ks": got})
         elif op[0] == "hash":
             if kind != "salsa20" or c["rounds"] != 20:
-                continue            # the specified core is the 20-round Salsa20 one
+                attempt(obj.hash, op[1])     # only the 20-round Salsa20 core is specified: elsewhere the call merely disturbs
+                continue
             got = guard(obj.hash, op[1])
             exp = R.salsa_hash(op[1])
             if got != exp:
@@ -117,7 +128,7 @@ def object_history_strategy(tier):
     op = gen.pick((3, st.tuples(st.just("enc"), nonce, msg)), (2, st.tuples(st.just("dec"), nonce, msg)),
                   (1, st.tuples(st.just("ks"), nonce, gen.uint(1, 3))), (2, st.tuples(st.just("hash"), gen.blob(64))))
     def build(conf, ops, force20):
-        if force20:
+        if force20 or (conf["cipher"] == "salsa20" and any(o[0] == "hash" for o in ops)):
             conf = dict(conf, rounds=20)
         if not ops[-1][0] in ("enc", "dec"):
             ops = ops + [("enc", conf["nonce"], bytes(range(70)))]
